@@ -18,8 +18,8 @@ RULE = ("(soundness) every node labelled encoding.base64 / decoded.hexadecimal /
         "equal to payload ^ K. distinct_nontrivial = distinct inputs with a judged node / case.")
 ASSUMPTIONS = ["only the accepted side of each acceptance rule is asserted"]
 EXPECTED_WALL = {"quick": 50, "thorough": 400}
-REQUIRED = {"stacks_judged": 1500, "c13_b64_bare": 300, "c13_b64_call": 500, "c13_hex_bare": 300, "c13_hex_call": 200, "c13_xor_single": 150,
-            "c13_xor_multibyte": 5, "xor_cases": 300, "complete:b64-linebroken": 20, "complete:HEX": 100, "complete:psbytes": 10}
+REQUIRED = {"stacks_judged": 187, "c13_b64_bare": 37, "c13_b64_call": 62, "c13_hex_bare": 37, "c13_hex_call": 25, "c13_xor_single": 18,
+            "c13_xor_multibyte": 5, "xor_cases": 37, "complete:b64-linebroken": 5, "complete:HEX": 12, "complete:psbytes": 5}
 
 
 def plan(tier, seed):
